@@ -15,7 +15,8 @@ UN == TTok("UN")
 Bin(op) == Cat(Cat(E, op), E)
 ERhs == Alt(Bin(S("+")), Alt(Bin(S("*")), Alt(Bin(S("^")), Alt(Bin(S("<")), Alt(Bin(EQ), Alt(Cat(E, E), Alt(Cat(UN, E), Alt(S("x"), Cat(Cat(S("("), NT("l")), S(")"))))))))))
 Base == << Tok("EQ", "str", "=="), Tok("UN", "str", "!"), Rule("start", E), Rule("e", ERhs),
-           Rule("l", Un("star", Cat(E, S(",")))), EmptyRule("u") >>
+           Rule("l", Un("star", Cat(E, S(",")))), EmptyRule("u"),
+           Rule("g", Cat(Cat(S("x"), Un("grp", Alt(S("+"), Alt(S("<"), S("*"))))), Un("opt", Alt(EQ, UN)))) >>
 
 Pool == <<
   Dir("left",  <<HTerm("+", TRUE)>>),
@@ -26,7 +27,9 @@ Pool == <<
   Dir("right", <<HRule("e", Alt(Cat(UN, E), S("x")))>>),
   Dir("left",  <<HRule("l", Un("star", Cat(E, S(","))))>>),
   Dir("none",  <<HTerm("UN", FALSE), HEmptyRule("u")>>),
-  Dir("right", <<HRule("u", Alt(Cat(Un("opt", S("(")), S("x")), Un("plus", UN)))>>)
+  Dir("right", <<HRule("u", Alt(Cat(Un("opt", S("(")), S("x")), Un("plus", UN)))>>),
+  \* the rule g with the alternatives of its group and of its option written in another order: the same production
+  Dir("left",  <<HRule("g", Cat(Cat(S("x"), Un("grp", Alt(S("*"), Alt(S("+"), S("<"))))), Un("opt", Alt(UN, EQ))))>>)
 >>
 Idx == 1..Len(Pool)
 Seqs == { q \in UNION { [1..n -> Idx] : n \in 0..MaxLevels } : \A a, b \in 1..Len(q) : a # b => q[a] # q[b] }
